@@ -50,6 +50,7 @@ fn main() {
         "tess" => ops::tess::run(&mut out, &mut rng, thorough),
         "cells" => ops::cells::run(&mut out, &mut rng, thorough),
         "iloc" => ops::iloc::run(&mut out, &mut rng, thorough),
+        "geom" => ops::geom::run(&mut out, &mut rng, thorough),
         "addfar" => ops::addfar::run(&mut out, &mut rng, thorough),
         "routes" => ops::routes::run_routes(&mut out, &mut rng, thorough),
         "partial" => ops::routes::run_partial(&mut out, &mut rng, thorough),
